@@ -72,7 +72,8 @@ impl Prop for C02 {
     }
     fn check(&self, case: &Case, want_sample: bool) -> RunOut {
         let mode = if case.param("mode") == Some("blocking") { Mode::Blocking } else { Mode::Ticking };
-        let mut st = match Stepper::new(&case.cfg, &case.files, mode) {
+        let r = if case.param("population") == Some("unfiltered") { Stepper::new(&case.cfg, &case.files, mode) } else { Stepper::new_filtered(&case.cfg, &case.files, mode) };
+        let mut st = match r {
             Ok(s) => s,
             Err(_) => return RunOut::skip("parser-rejected"),
         };
